@@ -526,3 +526,4 @@ def decode_cache_objects(ctx: Ctx, wrap: Class) -> None:
     else:
         rep.ok("C12.R4", f.qname, desc + f" ({len(cases)} input classes)", f.loc())
     rep.floor("C12.R4", len(cases), 9)
+
